@@ -103,8 +103,53 @@ macro_rules! apply_op {
     };
 }
 
+/// What the op-specific reachability witnesses look at.
+pub struct Seen {
+    pub in_len: usize,
+    pub out_len: usize,
+    pub arg_len: usize,
+    pub no_scheme_no_authority: bool,
+    pub old_path_empty: bool,
+    pub after_authority: bool,
+    pub has_query: bool,
+    pub want_n: usize,
+}
+
+fn covers_push(c: &Seen) {
+    cover!(c.after_authority && c.old_path_empty, "empty path after an authority");
+    cover!(c.no_scheme_no_authority && c.old_path_empty && c.out_len == c.arg_len + 2, "a shield was inserted in front of the pushed segment");
+    cover!(c.has_query && c.out_len != c.in_len, "text after the path was moved");
+}
+
+fn covers_pop(c: &Seen) {
+    cover!(c.after_authority && c.old_path_empty, "empty path after an authority");
+    cover!(c.out_len > c.in_len, "pop appended '..'");
+    cover!(c.out_len + 2 <= c.in_len, "pop removed a segment of at least one byte");
+    cover!(c.has_query && c.out_len != c.in_len, "text after the path was moved");
+}
+
+fn covers_clear(c: &Seen) {
+    cover!(c.after_authority && c.old_path_empty, "empty path after an authority");
+    cover!(c.has_query && c.out_len + 2 <= c.in_len, "text after the path was moved");
+    cover!(c.want_n == 0 && c.out_len == c.in_len, "nothing to clear");
+}
+
+fn covers_standalone_push(c: &Seen) {
+    cover!(c.old_path_empty && c.out_len == c.arg_len + 2, "a shield was inserted");
+    cover!(c.want_n >= 3, "three or more segments");
+}
+
+fn covers_standalone_pop(c: &Seen) {
+    cover!(c.out_len > c.in_len, "pop appended '..'");
+    cover!(c.want_n >= 2, "two or more segments left");
+}
+
+fn covers_standalone_clear(c: &Seen) {
+    cover!(c.out_len + 2 <= c.in_len, "at least two bytes cleared");
+}
+
 /// One edit through a fresh handle on a path embedded in a URI reference.
-fn embedded_uri<const OP: u8, const N: usize, const M: usize, const K: usize>() {
+fn embedded_uri<const OP: u8, const N: usize, const M: usize, const K: usize>(covers: fn(&Seen)) {
     let t = Text::<N>::any();
     let b = t.bytes();
     assume(tables::t_uri_uriref_valid_k(b, N));
@@ -146,15 +191,16 @@ fn embedded_uri<const OP: u8, const N: usize, const M: usize, const K: usize>() 
     // invariant I: the handle viewed exactly the (new) path of the buffer
     let fresh = x.path().as_bytes();
     assert!(hp == fresh.as_ptr() && hl == fresh.len(), "C04/C10: the handle does not view exactly the path after the edit");
-    cover!(cb.authority.is_some() && cb.path.is_empty(), "empty path after an authority");
-    if OP == PUSH || OP == SYMBOLIC_PUSH || OP == SYMBOLIC_APPEND {
-        cover!(cb.scheme.is_none() && cb.authority.is_none() && cb.path.is_empty() && out.len() == arg.len() + 2, "a shield was inserted in front of the pushed segment");
-    }
-    if OP == POP {
-        cover!(out.len() > b.len(), "pop appended '..'");
-        cover!(out.len() + 2 <= b.len(), "pop removed a segment of at least one byte");
-    }
-    cover!(cb.query.is_some() && out.len() != b.len(), "text after the path was moved");
+    covers(&Seen {
+        in_len: b.len(),
+        out_len: out.len(),
+        arg_len: arg.len(),
+        no_scheme_no_authority: cb.scheme.is_none() && cb.authority.is_none(),
+        old_path_empty: cb.path.is_empty(),
+        after_authority: cb.authority.is_some(),
+        has_query: cb.query.is_some(),
+        want_n: want.n,
+    });
     forget(x);
 }
 
@@ -163,7 +209,7 @@ fn embedded_uri<const OP: u8, const N: usize, const M: usize, const K: usize>() 
 #[cfg_attr(kani, kani::unwind(9))]
 #[cfg_attr(kani, kani::stub(std::vec::Vec::resize, crate::stubs::vec_resize))]
 pub fn c10_embedded_push_n4() {
-    embedded_uri::<PUSH, 4, 2, 8>()
+    embedded_uri::<PUSH, 4, 2, 8>(covers_push)
 }
 
 // @h prop=C10,C04 tier=thorough kind=check timeout=2400 mem=16 bound="UriRefBuf text <= 5 bytes, segment <= 2 bytes" encodes="RiRefBufImpl::path_mut;PathMutImpl::{new,push,first_segment_offset};utils::{replace,allocate_range};Deref for PathMut"
@@ -171,7 +217,7 @@ pub fn c10_embedded_push_n4() {
 #[cfg_attr(kani, kani::unwind(10))]
 #[cfg_attr(kani, kani::stub(std::vec::Vec::resize, crate::stubs::vec_resize))]
 pub fn c10_embedded_push_n5() {
-    embedded_uri::<PUSH, 5, 2, 9>()
+    embedded_uri::<PUSH, 5, 2, 9>(covers_push)
 }
 
 // @h prop=C10,C04 tier=thorough kind=check timeout=2400 mem=16 bound="UriRefBuf text <= 6 bytes, segment <= 2 bytes" encodes="RiRefBufImpl::path_mut;PathMutImpl::{new,push,first_segment_offset};utils::{replace,allocate_range};Deref for PathMut"
@@ -179,7 +225,7 @@ pub fn c10_embedded_push_n5() {
 #[cfg_attr(kani, kani::unwind(11))]
 #[cfg_attr(kani, kani::stub(std::vec::Vec::resize, crate::stubs::vec_resize))]
 pub fn c10_embedded_push_n6() {
-    embedded_uri::<PUSH, 6, 2, 10>()
+    embedded_uri::<PUSH, 6, 2, 10>(covers_push)
 }
 
 // @h prop=C10,C04 tier=quick kind=check timeout=2400 mem=12 bound="UriRefBuf text <= 4 bytes" encodes="PathMutImpl::{pop,push};PathImpl::last;utils::replace"
@@ -187,7 +233,7 @@ pub fn c10_embedded_push_n6() {
 #[cfg_attr(kani, kani::unwind(8))]
 #[cfg_attr(kani, kani::stub(std::vec::Vec::resize, crate::stubs::vec_resize))]
 pub fn c10_embedded_pop_n4() {
-    embedded_uri::<POP, 4, 0, 7>()
+    embedded_uri::<POP, 4, 0, 7>(covers_pop)
 }
 
 // @h prop=C10,C04 tier=thorough kind=check timeout=2400 mem=16 bound="UriRefBuf text <= 5 bytes" encodes="PathMutImpl::{pop,push};PathImpl::last;utils::replace"
@@ -195,7 +241,7 @@ pub fn c10_embedded_pop_n4() {
 #[cfg_attr(kani, kani::unwind(9))]
 #[cfg_attr(kani, kani::stub(std::vec::Vec::resize, crate::stubs::vec_resize))]
 pub fn c10_embedded_pop_n5() {
-    embedded_uri::<POP, 5, 0, 8>()
+    embedded_uri::<POP, 5, 0, 8>(covers_pop)
 }
 
 // @h prop=C10,C04 tier=thorough kind=check timeout=2400 mem=16 bound="UriRefBuf text <= 6 bytes" encodes="PathMutImpl::{pop,push};PathImpl::last;utils::replace"
@@ -203,7 +249,7 @@ pub fn c10_embedded_pop_n5() {
 #[cfg_attr(kani, kani::unwind(10))]
 #[cfg_attr(kani, kani::stub(std::vec::Vec::resize, crate::stubs::vec_resize))]
 pub fn c10_embedded_pop_n6() {
-    embedded_uri::<POP, 6, 0, 9>()
+    embedded_uri::<POP, 6, 0, 9>(covers_pop)
 }
 
 // @h prop=C10,C04:thorough tier=quick kind=check timeout=2400 mem=12 bound="UriRefBuf text <= 5 bytes" encodes="PathMutImpl::clear;utils::replace"
@@ -211,7 +257,7 @@ pub fn c10_embedded_pop_n6() {
 #[cfg_attr(kani, kani::unwind(8))]
 #[cfg_attr(kani, kani::stub(std::vec::Vec::resize, crate::stubs::vec_resize))]
 pub fn c10_embedded_clear_n5() {
-    embedded_uri::<CLEAR, 5, 0, 6>()
+    embedded_uri::<CLEAR, 5, 0, 6>(covers_clear)
 }
 
 // @h prop=C10,C04 tier=thorough kind=check timeout=2400 mem=16 bound="UriRefBuf text <= 6 bytes" encodes="PathMutImpl::clear;utils::replace"
@@ -219,7 +265,7 @@ pub fn c10_embedded_clear_n5() {
 #[cfg_attr(kani, kani::unwind(9))]
 #[cfg_attr(kani, kani::stub(std::vec::Vec::resize, crate::stubs::vec_resize))]
 pub fn c10_embedded_clear_n6() {
-    embedded_uri::<CLEAR, 6, 0, 7>()
+    embedded_uri::<CLEAR, 6, 0, 7>(covers_clear)
 }
 
 // @h prop=C10,C04 tier=thorough kind=check timeout=2400 mem=16 bound="UriRefBuf text <= 7 bytes" encodes="PathMutImpl::clear;utils::replace"
@@ -227,15 +273,15 @@ pub fn c10_embedded_clear_n6() {
 #[cfg_attr(kani, kani::unwind(10))]
 #[cfg_attr(kani, kani::stub(std::vec::Vec::resize, crate::stubs::vec_resize))]
 pub fn c10_embedded_clear_n7() {
-    embedded_uri::<CLEAR, 7, 0, 8>()
+    embedded_uri::<CLEAR, 7, 0, 8>(covers_clear)
 }
 
-// @h prop=C10,C04:thorough tier=quick kind=check timeout=2400 mem=12 bound="UriRefBuf text <= 4 bytes, segment <= 2 bytes (incl. '.', '..')" encodes="uri::PathMut::symbolic_push;PathMutImpl::{symbolic_push,pop,push}"
+// @h prop=C10,C04:thorough tier=quick kind=check timeout=3000 mem=24 bound="UriRefBuf text <= 4 bytes, segment <= 2 bytes (incl. '.', '..')" encodes="uri::PathMut::symbolic_push;PathMutImpl::{symbolic_push,pop,push}"
 #[cfg_attr(kani, kani::proof)]
 #[cfg_attr(kani, kani::unwind(10))]
 #[cfg_attr(kani, kani::stub(std::vec::Vec::resize, crate::stubs::vec_resize))]
 pub fn c10_embedded_symbolic_push_n4() {
-    embedded_uri::<SYMBOLIC_PUSH, 4, 2, 9>()
+    embedded_uri::<SYMBOLIC_PUSH, 4, 2, 9>(covers_push)
 }
 
 // @h prop=C10,C04 tier=thorough kind=check timeout=3000 mem=26 bound="UriRefBuf text <= 5 bytes, segment <= 2 bytes (incl. '.', '..')" encodes="uri::PathMut::symbolic_push;PathMutImpl::{symbolic_push,pop,push}"
@@ -243,7 +289,7 @@ pub fn c10_embedded_symbolic_push_n4() {
 #[cfg_attr(kani, kani::unwind(11))]
 #[cfg_attr(kani, kani::stub(std::vec::Vec::resize, crate::stubs::vec_resize))]
 pub fn c10_embedded_symbolic_push_n5() {
-    embedded_uri::<SYMBOLIC_PUSH, 5, 2, 10>()
+    embedded_uri::<SYMBOLIC_PUSH, 5, 2, 10>(covers_push)
 }
 
 // @h prop=C10,C04 tier=thorough kind=check timeout=5400 mem=30 bound="UriRefBuf text <= 6 bytes, segment <= 2 bytes (incl. '.', '..')" encodes="uri::PathMut::symbolic_push;PathMutImpl::{symbolic_push,pop,push}"
@@ -251,7 +297,7 @@ pub fn c10_embedded_symbolic_push_n5() {
 #[cfg_attr(kani, kani::unwind(12))]
 #[cfg_attr(kani, kani::stub(std::vec::Vec::resize, crate::stubs::vec_resize))]
 pub fn c10_embedded_symbolic_push_n6() {
-    embedded_uri::<SYMBOLIC_PUSH, 6, 2, 11>()
+    embedded_uri::<SYMBOLIC_PUSH, 6, 2, 11>(covers_push)
 }
 
 // @h prop=C10,C04 tier=thorough kind=check timeout=3000 mem=20 bound="UriRefBuf text <= 5 bytes, appended path <= 4 bytes" encodes="PathMutImpl::symbolic_append over SegmentsImpl;symbolic_push;pop;push"
@@ -259,11 +305,11 @@ pub fn c10_embedded_symbolic_push_n6() {
 #[cfg_attr(kani, kani::unwind(13))]
 #[cfg_attr(kani, kani::stub(std::vec::Vec::resize, crate::stubs::vec_resize))]
 pub fn c10_embedded_symbolic_append_n5() {
-    embedded_uri::<SYMBOLIC_APPEND, 5, 4, 12>()
+    embedded_uri::<SYMBOLIC_APPEND, 5, 4, 12>(covers_push)
 }
 
 /// The same edits on a stand-alone path buffer.
-fn standalone_uri<const OP: u8, const N: usize, const M: usize, const K: usize>() {
+fn standalone_uri<const OP: u8, const N: usize, const M: usize, const K: usize>(covers: fn(&Seen)) {
     let t = Text::<N>::any();
     let b = t.bytes();
     assume(uri::Path::new(b).is_ok());
@@ -286,14 +332,16 @@ fn standalone_uri<const OP: u8, const N: usize, const M: usize, const K: usize>(
     let out = x.as_bytes();
     assert!(is_rendering(out, b"", &s, &want, absolute, b"", K, N + 2), "C10: the stand-alone path is not the expected segment sequence after the edit");
     assert!(tables::t_uri_path_valid_k(out, K), "C04: the stand-alone path buffer is no longer a valid path");
-    if OP == PUSH || OP == SYMBOLIC_PUSH || OP == SYMBOLIC_APPEND {
-        cover!(b.is_empty() && out.len() == arg.len() + 2, "a shield was inserted");
-        cover!(want.n >= 3, "three or more segments");
-    }
-    if OP == POP {
-        cover!(out.len() > b.len(), "pop appended '..'");
-        cover!(want.n >= 2, "two or more segments left");
-    }
+    covers(&Seen {
+        in_len: b.len(),
+        out_len: out.len(),
+        arg_len: arg.len(),
+        no_scheme_no_authority: true,
+        old_path_empty: b.is_empty(),
+        after_authority: false,
+        has_query: false,
+        want_n: want.n,
+    });
     forget(x);
 }
 
@@ -302,7 +350,7 @@ fn standalone_uri<const OP: u8, const N: usize, const M: usize, const K: usize>(
 #[cfg_attr(kani, kani::unwind(9))]
 #[cfg_attr(kani, kani::stub(std::vec::Vec::resize, crate::stubs::vec_resize))]
 pub fn c10_pathbuf_push_n4() {
-    standalone_uri::<PUSH, 4, 2, 8>()
+    standalone_uri::<PUSH, 4, 2, 8>(covers_standalone_push)
 }
 
 // @h prop=C10,C04 tier=thorough kind=check timeout=2400 mem=16 bound="uri::PathBuf text <= 5 bytes, segment <= 2 bytes" encodes="uri::PathBuf::push;PathMutImpl::{from_path,push}"
@@ -310,7 +358,7 @@ pub fn c10_pathbuf_push_n4() {
 #[cfg_attr(kani, kani::unwind(10))]
 #[cfg_attr(kani, kani::stub(std::vec::Vec::resize, crate::stubs::vec_resize))]
 pub fn c10_pathbuf_push_n5() {
-    standalone_uri::<PUSH, 5, 2, 9>()
+    standalone_uri::<PUSH, 5, 2, 9>(covers_standalone_push)
 }
 
 // @h prop=C10,C04 tier=thorough kind=check timeout=2400 mem=16 bound="uri::PathBuf text <= 6 bytes, segment <= 2 bytes" encodes="uri::PathBuf::push;PathMutImpl::{from_path,push}"
@@ -318,7 +366,7 @@ pub fn c10_pathbuf_push_n5() {
 #[cfg_attr(kani, kani::unwind(11))]
 #[cfg_attr(kani, kani::stub(std::vec::Vec::resize, crate::stubs::vec_resize))]
 pub fn c10_pathbuf_push_n6() {
-    standalone_uri::<PUSH, 6, 2, 10>()
+    standalone_uri::<PUSH, 6, 2, 10>(covers_standalone_push)
 }
 
 // @h prop=C10,C04:thorough tier=quick kind=check timeout=2400 mem=12 bound="uri::PathBuf text <= 4 bytes" encodes="uri::PathBuf::pop;PathMutImpl::pop"
@@ -326,7 +374,7 @@ pub fn c10_pathbuf_push_n6() {
 #[cfg_attr(kani, kani::unwind(8))]
 #[cfg_attr(kani, kani::stub(std::vec::Vec::resize, crate::stubs::vec_resize))]
 pub fn c10_pathbuf_pop_n4() {
-    standalone_uri::<POP, 4, 0, 7>()
+    standalone_uri::<POP, 4, 0, 7>(covers_standalone_pop)
 }
 
 // @h prop=C10,C04 tier=thorough kind=check timeout=2400 mem=16 bound="uri::PathBuf text <= 5 bytes" encodes="uri::PathBuf::pop;PathMutImpl::pop"
@@ -334,7 +382,7 @@ pub fn c10_pathbuf_pop_n4() {
 #[cfg_attr(kani, kani::unwind(9))]
 #[cfg_attr(kani, kani::stub(std::vec::Vec::resize, crate::stubs::vec_resize))]
 pub fn c10_pathbuf_pop_n5() {
-    standalone_uri::<POP, 5, 0, 8>()
+    standalone_uri::<POP, 5, 0, 8>(covers_standalone_pop)
 }
 
 // @h prop=C10,C04 tier=thorough kind=check timeout=2400 mem=16 bound="uri::PathBuf text <= 6 bytes" encodes="uri::PathBuf::pop;PathMutImpl::pop"
@@ -342,7 +390,7 @@ pub fn c10_pathbuf_pop_n5() {
 #[cfg_attr(kani, kani::unwind(10))]
 #[cfg_attr(kani, kani::stub(std::vec::Vec::resize, crate::stubs::vec_resize))]
 pub fn c10_pathbuf_pop_n6() {
-    standalone_uri::<POP, 6, 0, 9>()
+    standalone_uri::<POP, 6, 0, 9>(covers_standalone_pop)
 }
 
 // @h prop=C10,C04 tier=thorough kind=check timeout=3000 mem=20 bound="uri::PathBuf text <= 6 bytes, segment <= 2 bytes" encodes="uri::PathBuf::symbolic_push"
@@ -350,7 +398,7 @@ pub fn c10_pathbuf_pop_n6() {
 #[cfg_attr(kani, kani::unwind(12))]
 #[cfg_attr(kani, kani::stub(std::vec::Vec::resize, crate::stubs::vec_resize))]
 pub fn c10_pathbuf_symbolic_push_n6() {
-    standalone_uri::<SYMBOLIC_PUSH, 6, 2, 11>()
+    standalone_uri::<SYMBOLIC_PUSH, 6, 2, 11>(covers_standalone_push)
 }
 
 // @h prop=C10,C04 tier=thorough kind=check timeout=3000 mem=20 bound="uri::PathBuf text <= 5 bytes, appended path <= 4 bytes" encodes="uri::PathBuf::symbolic_append"
@@ -358,7 +406,7 @@ pub fn c10_pathbuf_symbolic_push_n6() {
 #[cfg_attr(kani, kani::unwind(13))]
 #[cfg_attr(kani, kani::stub(std::vec::Vec::resize, crate::stubs::vec_resize))]
 pub fn c10_pathbuf_symbolic_append_n5() {
-    standalone_uri::<SYMBOLIC_APPEND, 5, 4, 12>()
+    standalone_uri::<SYMBOLIC_APPEND, 5, 4, 12>(covers_standalone_push)
 }
 
 // @h prop=C10,C04 tier=thorough kind=check timeout=3000 mem=20 bound="uri::PathBuf text <= 7 bytes" encodes="uri::PathBuf::clear"
@@ -366,7 +414,7 @@ pub fn c10_pathbuf_symbolic_append_n5() {
 #[cfg_attr(kani, kani::unwind(10))]
 #[cfg_attr(kani, kani::stub(std::vec::Vec::resize, crate::stubs::vec_resize))]
 pub fn c10_pathbuf_clear_n7() {
-    standalone_uri::<CLEAR, 7, 0, 8>()
+    standalone_uri::<CLEAR, 7, 0, 8>(covers_standalone_clear)
 }
 
 /// Two edits through ONE handle with symbolic op choice (push / pop / clear)
